@@ -38,6 +38,8 @@ pub(crate) fn vk_slot(cw: &CacheWeight<u64>, i: usize) -> Option<(KeyId, u64, Ke
 
 /// key of entry with id i in the concrete pool is 100 + i, hash is i % 4 (pool: ids 1..=3 resident, 4 incoming)
 pub(crate) const POOL: usize = 3;
+/// hash of resident i: deliberately different from its id (i + 1) and from its key (101 + i)
+pub(crate) fn hash_of(i: usize) -> KeyHash { (i + 5) as KeyHash }
 
 /// Symbolic description of a CacheWeight state satisfying the representation invariant: up to 3 resident ids
 /// (1..=3) with arbitrary positive weights, total == sum of weights (+ g in flight), 0 <= total <= max.
@@ -64,7 +66,7 @@ pub(crate) fn vk_any_astate(fixed_n: Option<usize>, in_flight: bool) -> AState {
 pub(crate) fn vk_populate(cw: &CacheWeight<u64>, a: &AState) {
     let mut i = 0;
     while i < POOL {
-        if a.present[i] { vk_place(cw, i, (i + 1) as KeyId, 101 + i as u64, (i + 1) as KeyHash, a.weights[i]); }
+        if a.present[i] { vk_place(cw, i, (i + 1) as KeyId, 101 + i as u64, hash_of(i), a.weights[i]); }
         i += 1;
     }
     vk_set_limits(cw, a.max, a.used);
@@ -146,7 +148,7 @@ fn c05_cache_weight_step() {
     let mut i = 0;
     while i < POOL {
         let e = vk_entry(&cw, (i + 1) as KeyId);
-        if exp_present[i] { assert!(e == Some((101 + i as u64, (i + 1) as KeyHash, exp_weights[i])), "C03/C05: every other entry is untouched; the addressed one has the new weight"); exp_sum += exp_weights[i] as i128; }
+        if exp_present[i] { assert!(e == Some((101 + i as u64, hash_of(i), exp_weights[i])), "C03/C05: every other entry is untouched; the addressed one has the new weight"); exp_sum += exp_weights[i] as i128; }
         else { assert!(e.is_none(), "C05: a released id is no longer charged"); }
         i += 1;
     }
@@ -231,7 +233,7 @@ fn c06_sampler_pop_and_refill() {
                 assert!(!seen[idx], "C06: a key is never sampled twice");
                 seen[idx] = true;
                 assert!(k.weight == weights[idx], "C06: sampled weight is the charged weight");
-                assert!(k.estimated_frequency == freq_of((idx + 1) as KeyHash), "C06: sampled frequency is the estimate of the key's hash");
+                assert!(k.estimated_frequency == freq_of(hash_of(idx)), "C06: sampled frequency is the estimate of the key's hash");
                 // simulate the eviction the caller performs, then refill
                 cw.delete(&k.id, &record_hook);
                 let filled = sample.maybe_fill_in();
@@ -273,7 +275,7 @@ fn c06_sampler_victim_order() {
             let mut j = 0;
             while j < POOL {
                 if present[j] && !popped[j] {
-                    let other = SampledKey::using((j + 1) as KeyId, weights[j], freq_of((j + 1) as KeyHash));
+                    let other = SampledKey::using((j + 1) as KeyId, weights[j], freq_of(hash_of(j)));
                     assert!(lower_or_equal(&k, &other), "C06: victims are taken lowest estimate first, heavier first on ties");
                 }
                 j += 1;
@@ -284,7 +286,7 @@ fn c06_sampler_victim_order() {
     }
     let mut j = 0;
     while j < POOL { assert!(popped[j] == present[j], "C06: every resident key of a small map is eventually offered as a victim, exactly once"); j += 1; }
-    kani::cover!(present[0] && present[1] && present[2] && freq_of(1) == freq_of(2) && weights[0] != weights[1], "tie on frequency among three residents");
+    kani::cover!(present[0] && present[1] && present[2] && freq_of(hash_of(0)) == freq_of(hash_of(1)) && weights[0] != weights[1], "tie on frequency among three residents");
     core::mem::forget(sample);
     core::mem::forget(cw);
 }
